@@ -367,6 +367,35 @@ def random_cases(seed, n, **kw):
     return [random_program(rnd, **kw) for _ in range(n)]
 
 
+def quiet_cases(seed, n, **kw):
+    """random histories during which the harness looks at NOTHING (no gradient() / values() calls of its own between
+    the steps): every live handle is observed once, after the last step.  What a program computes must not depend on
+    being watched (a lazily flushed accumulation queue, a cache filled by a read, ...)."""
+    rnd = random.Random(seed)
+    cases = []
+    for _ in range(n):
+        p = random_program(rnd, handles=False, **kw)
+        if rnd.random() < 0.6:
+            p = [s for s in p if s["op"] != "grad"]          # no reads by the program itself either
+        p[0] = dict(p[0], quiet=True)
+        p.append({"op": "clone", "args": [1], "res": 9999, "obs": True})
+        cases.append(p)
+    # the pattern itself: passes, a clear through gradient_mut, further passes - observed only at the end
+    for d in ([1], [2], [2, 2]):
+        n_ = prod(d)
+        for how in ("mut", "replace"):
+            for npre in (1, 2):
+                for npost in (1, 2):
+                    steps = [dict(RESET, quiet=True), leaf(1, d, [PRIMES[k] for k in range(n_)], trk=True), leaf(2, d, [PRIMES[4 + k] for k in range(n_)], trk=True),
+                             op("mul", [1, 2], 3), op("add", [3, 1], 4)]
+                    steps += [backward(4, tensor(d, [PRIMES[8 + j + k] for k in range(n_)])) for j in range(npre)]
+                    steps.append({"op": "clear", "args": [1], "how": how})
+                    steps += [backward(4, tensor(d, [PRIMES[12 + j + k] for k in range(n_)])) for j in range(npost)]
+                    steps.append({"op": "clone", "args": [1], "res": 9999, "obs": True})
+                    cases.append(steps)
+    return cases
+
+
 # ---------------------------------------------------------------------------------------------
 # C03: broadcast operands used 1..3 times, 1..2 passes, then a two-parameter update
 def c03_cases(tier, seed):
@@ -579,6 +608,38 @@ def c11_cases(tier, seed):
                         steps += [{"op": "drop", "args": [h]} for h in (3, 4, 5) if any(s.get("res") == h for s in steps)]
                     steps.append(backward(6, tensor(d, [PRIMES[10 + k] for k in range(n)])))
                     steps.append(backward(6))
+                    cases.append(steps)
+    return cases
+
+
+def seed_alias_update_cases(tier, seed):
+    """C18: the seed is a clone (or a reshaped view) of a live array w; the engine may store that very array as a
+    gradient.  Once the gradients have been consumed by an update (or cleared) and the results dropped, nothing of
+    the finished computation may still refer to w's buffer: Vec::from(w) must succeed."""
+    cases = []
+    for d in ([2], [3], [2, 2]):
+        n = prod(d)
+        for root in ("add", "sub", "mul", "neg", "reshape", "axpy"):
+            for how in ("update", "clear_replace", "clear_mut"):
+                for view in (False, True):
+                    steps = [RESET, leaf(1, d, [PRIMES[k] for k in range(n)], trk=True), leaf(2, d, [PRIMES[5 + k] for k in range(n)], trk=True),
+                             leaf(3, [n] if view else d, [PRIMES[10 + k] for k in range(n)])]
+                    if root in ("add", "sub", "mul"):
+                        steps.append(op(root, [1, 2], 10))
+                    elif root == "axpy":
+                        steps.append(op("axpy", [1, 2], 10, alpha=sc(2)))
+                    elif root == "neg":
+                        steps.append(op("neg", [1], 10))
+                    else:
+                        steps.append(op("reshape", [1], 10, d=[1] + d))
+                    od = [1] + d if root == "reshape" else d
+                    steps.append(dict(backward(10), seedv=3, seedd=od) if view else dict(backward(10), seedh=3))
+                    steps.append({"op": "drop", "args": [10]})
+                    if how == "update":
+                        steps.append({"op": "update", "args": [1, 2], "lr": sc(F(1, 2))})
+                    else:
+                        steps += [{"op": "clear", "args": [h], "how": how.split("_")[1]} for h in (1, 2)]
+                    steps.append({"op": "into_vec", "args": [3]})
                     cases.append(steps)
     return cases
 
